@@ -48,6 +48,11 @@ func TestSweep(t *testing.T) {
 				for _, d := range names {
 					for _, entry := range []string{"readStriped", "writeStriped"} {
 						Oracle.One(t, env, rec, "sweep", &Case{Entry: entry, S: s, D: d, C1: c1, N: n, F1: 2, F2: 2, A: 1, Spare: 1})
+						if s == d { // outer slices with 1..3 further elements behind their length
+							for f2 := 3; f2 <= 5; f2++ {
+								Oracle.One(t, env, rec, "sweep", &Case{Entry: entry, S: s, D: d, C1: c1, N: n, F1: 2, F2: f2, A: 0, Spare: 0})
+							}
+						}
 					}
 				}
 			}
